@@ -29,9 +29,13 @@ import driver
 
 IMPORTS = ["Word", "Conc", "Gen_consts", "Gen_dqstate", "SrcData", "SrcLane", "SrcLaneR"]
 M64 = 1 << 64
+import os
+DEPTHS = [int(x) for x in os.environ.get('C15_DEPTHS', '24,96,400').split(',') if x]
+LATE_INSTALL = os.environ.get('C15_LATE', '1') == '1'
+PLACE_LOADS = os.environ.get('C15_PLACE', '0') == '1'
 SH = dict(Idle=0, POut=1, PM_flags=2, PM_op=3, PS_flags=4, PS_pend=5, PS_wake=6, PS_rootpush=7, PC_set=8, PU_rmw=9, PR_rmw=10,
           PR_flags=11, PR_pend=12, PR_wake=13, PW_lock=14, PW_susp=15, PW_flags=16, PW_pend=17, PW_latch=18, PW_call=19,
-          PW_incall=20, PW_post=21, PW_post2=22, PW_unlock=23, PW_xor=24, PW_fin=25)
+          PW_incall=20, PW_post=21, PW_post2=22, PW_unlock=23, PW_xor=24, PW_fin=25, PA_rmw=26, PA_role=27, PW_inst=28, PA_inst=29)
 
 
 class Unsupported(Exception):
@@ -66,12 +70,13 @@ def word_after(e):
 
 class Act:
     """one model action: kind (0 step, 1..6 begins), a1, a2, prew, prev, shape, st after (-1: unchanged), pend after, chk, cv"""
-    __slots__ = ("tid", "k", "a1", "a2", "pw", "pv", "sh", "st", "pe", "ck", "cv", "anchor", "ev")
+    __slots__ = ("tid", "k", "a1", "a2", "pw", "pv", "sh", "st", "pe", "ck", "cv", "anchor", "ev", "tag")
 
     def __init__(self, tid, k, sh, a1=0, a2=0, pw=0, pv=0, st=-1, pe=-1, ck=0, cv=0, ev=None):
         self.tid, self.k, self.a1, self.a2, self.pw, self.pv, self.sh, self.st, self.pe, self.ck, self.cv = \
             tid, k, a1, a2, pw, pv, SH[sh], st, pe, ck, cv
         self.ev = ev
+        self.tag = None
         self.anchor = float(ev.seq) if ev is not None else 0.0
 
 
@@ -114,6 +119,17 @@ def abstract_thread(tid, evs, C, info):
     n = len(evs)
     i = 0
     last_st_obs = None          # last value of dq_state this thread observed (load or failed compare-exchange)
+
+    def call_q(i0):
+        """the qos the wakeup of the call that starts at event i0 merges into the word (read off its committing compare-exchange)"""
+        for x in evs[i0 + 1:]:
+            if x.kind >= 100:
+                break
+            if x.off == 2 and x.line == C["LINE_wakeup_loop"]:
+                ww = word_after(x)
+                if ww is not None:
+                    return mq(ww[1]) if mq(ww[1]) != mq(ww[0]) else 0
+        return 0
 
     def wake_steps(e, w, shape_from):
         """the committing compare-exchange of a wakeup: PS_wake / PR_wake step, then the push when ENQUEUED was set"""
@@ -159,25 +175,33 @@ def abstract_thread(tid, evs, C, info):
                 fl = body[k] if k < len(body) else None
                 if fl is None or fl.kind != 1 or fl.off != 1:
                     fail(fl or e, "wakeup: flag load expected")
-                c1 = canc(fl.a)
-                emit(0, "Idle" if c1 else "PS_pend", fl, pw=3, pv=c1)
                 k += 1
-                if c1:
-                    if commits:
-                        fail(commits[0], "wakeup of a cancelled source by merge_data (not modelled)")
+                nxt = body[k] if k < len(body) else None
+                if nxt is not None and nxt.off == 2:
+                    # source not installed yet: the wakeup chooses its target without looking at ds_pending_data
+                    emit(0, "PS_wake", fl).tag = "U"
+                    if not commits:
+                        fail(fl, "wakeup of a not yet installed source without a committing compare-exchange")
+                    wake_steps(commits[0], word_after(commits[0]), "PS_wake")
                 else:
-                    pl = body[k] if k < len(body) else None
-                    if pl is None or pl.kind != 1 or pl.off != 0:
-                        fail(pl or e, "wakeup: ds_pending_data load expected (source not installed?)")
-                    emit(0, "Idle" if pl.a == 0 else "PS_wake", pl, pw=1, pv=pl.a)
-                    k += 1
-                    if pl.a == 0:
+                    c1 = canc(fl.a)
+                    emit(0, "Idle" if c1 else "PS_pend", fl, pw=3, pv=c1).tag = "I"
+                    if c1:
                         if commits:
-                            fail(commits[0], "dq_state write after a wakeup that saw nothing pending")
+                            fail(commits[0], "wakeup of a cancelled source by merge_data (not modelled)")
                     else:
-                        if not commits:
-                            fail(pl, "wakeup saw pending data but no compare-exchange committed")
-                        wake_steps(commits[0], word_after(commits[0]), "PS_wake")
+                        pl = nxt
+                        if pl is None or pl.kind != 1 or pl.off != 0:
+                            fail(pl or e, "wakeup: ds_pending_data load expected")
+                        emit(0, "Idle" if pl.a == 0 else "PS_wake", pl, pw=1, pv=pl.a)
+                        k += 1
+                        if pl.a == 0:
+                            if commits:
+                                fail(commits[0], "dq_state write after a wakeup that saw nothing pending")
+                        else:
+                            if not commits:
+                                fail(pl, "wakeup saw pending data but no compare-exchange committed")
+                            wake_steps(commits[0], word_after(commits[0]), "PS_wake")
             # whatever else the body contains must be observation only
             for x in body:
                 if x.off == 0 and x.kind not in (1,) and not (x.kind in (6, 9, 2)):
@@ -222,57 +246,125 @@ def abstract_thread(tid, evs, C, info):
                 acts[-1].anchor = e.seq - 0.5
                 if len(acts) > 1 and acts[-1].anchor <= acts[-2].anchor:
                     acts[-1].anchor = acts[-2].anchor + 1e-4
-                emit(0, "PW_susp", e, pw=2, pv=old, st=new)
+                emit(0, "PW_inst", e, pw=2, pv=old, st=new)
+                a_ = emit(0, "PW_susp", e)              # if (!ds->ds_is_installed) install: a plain access, no recorded event;
+                a_.tag = "XW"
                 i = drain(evs, i + 1, emit, fail, canc, suspended, troot, starve, self_, C)
                 continue
             if oo == no and hi(old) != hi(new):
-                if hi(new) == hi(old) + 8:
+                NA = 1 << 55
+
+                def resume_tail(i, e, old, new):
+                    """after the committing compare-exchange of _dispatch_lane_resume(ds, false)"""
+                    if (old ^ new) & NA:
+                        # NEEDS_ACTIVATION cleared: the activation finalizer, then the resume again
+                        emit(0, "PA_role", e, pw=2, pv=old, st=new)
+                        return role_and_resume(i + 1, e)
+                    wake = (not suspended(new)) and runnable(new)
+                    emit(0, "PR_flags" if wake else "Idle", e, pw=2, pv=old, st=new)
+                    i += 1
+                    if not wake:
+                        return i
+                    # dx_wakeup(CONSUME_2): flags, (installed: pending), then the loop commits or gives up
+                    while i < n and not (evs[i].kind == 1 and evs[i].off == 1):
+                        if evs[i].kind >= 100 or word_after(evs[i]) is not None:
+                            fail(evs[i], "resume: flag load of the wakeup expected")
+                        i += 1
+                    if i >= n:
+                        fail(e, "resume: flag load of the wakeup expected")
+                    fl = evs[i]
+                    i += 1
+                    if i < n and evs[i].kind == 1 and evs[i].off == 0:
+                        c1 = canc(fl.a)
+                        emit(0, "Idle" if c1 else "PR_pend", fl, pw=3, pv=c1).tag = "I"
+                        if c1:
+                            return i
+                        pv = evs[i].a
+                        emit(0, "Idle" if pv == 0 else "PR_wake", evs[i], pw=1, pv=pv)
+                        i += 1
+                        if pv == 0:
+                            return i
+                    else:
+                        if canc(fl.a) and not (i < n and evs[i].off == 2 and evs[i].line == C["LINE_wakeup_loop"]):
+                            emit(0, "Idle", fl, pw=3, pv=1)
+                            return i
+                        emit(0, "PR_wake", fl).tag = "U"  # not installed yet: no look at ds_pending_data
+                    obs, com = None, None
+                    while i < n and evs[i].off == 2 and evs[i].kind < 100 and evs[i].line == C["LINE_wakeup_loop"]:
+                        ww = word_after(evs[i])
+                        if ww is not None:
+                            com = evs[i]
+                            i += 1
+                            break
+                        obs = evs[i]
+                        i += 1
+                    if com is not None:
+                        wake_steps(com, word_after(com), "PR_wake")
+                    else:
+                        if obs is None:
+                            fail(e, "resume: wakeup loop without any dq_state observation")
+                        emit(0, "Idle", obs, pw=2, pv=obs.a)
+                    return i
+
+                def role_and_resume(i, e0):
+                    """_dispatch_lane_resume_activate: the role inheritance loop, then _dispatch_lane_resume(ds, false)"""
+                    obs = None
+                    while i < n:
+                        x = evs[i]
+                        if x.off == 1 and x.kind == 1:
+                            i += 1
+                            continue
+                        if x.off == 2 and x.kind < 100:
+                            ww = word_after(x)
+                            if x.line == C["LINE_inherit_wlh_loop"]:
+                                if ww is None:
+                                    obs = x
+                                    i += 1
+                                    continue
+                                emit(0, "PA_inst", x, pw=2, pv=ww[0], st=ww[1])
+                                obs = "done"
+                                i += 1
+                                continue
+                            if x.line == C["LINE_resume_loop"]:
+                                if ww is None:
+                                    i += 1
+                                    continue
+                                if obs != "done":
+                                    if obs is None:
+                                        emit(0, "PA_inst", x)
+                                    else:
+                                        emit(0, "PA_inst", obs, pw=2, pv=obs.a)
+                                # _dispatch_source_activate installs the source (a plain write, no recorded event) at some point
+                                # before the resume: placed as late as possible
+                                a_ = emit(0, "PR_rmw", x)
+                                a_.tag = "XA"
+                                o2, n2 = ww
+                                if hi(n2) != hi(o2) - 8 and not ((o2 ^ n2) & NA):
+                                    fail(x, "activation: the resume after the finalizer does not take one suspend count")
+                                return resume_tail(i, x, o2, n2)
+                        fail(x, "activation: role inheritance / resume expected")
+                    fail(e0, "activation not finished at the end of the recording")
+
+                if hi(new) == hi(old) + 8 and e.line == C["LINE_suspend_loop"]:
                     emit(3, "PU_rmw", e)
                     emit(0, "Idle", e, pw=2, pv=old, st=new)
                     i += 1
                     continue
-                if hi(new) == hi(old) - 8:
-                    q = mq(old)
-                    emit(4, "PR_rmw", e, a1=q)
-                    wake = (not suspended(new)) and runnable(new)
-                    emit(0, "PR_flags" if wake else "Idle", e, pw=2, pv=old, st=new)
-                    i += 1
-                    if wake:
-                        # dx_wakeup(CONSUME_2): flags, pending, then the loop commits or gives up
-                        while i < n and not (evs[i].kind == 1 and evs[i].off == 1):
-                            if evs[i].kind >= 100 or word_after(evs[i]) is not None:
-                                fail(evs[i], "resume: flag load of the wakeup expected")
-                            i += 1
-                        if i >= n:
-                            fail(e, "resume: flag load of the wakeup expected")
-                        c1 = canc(evs[i].a)
-                        emit(0, "Idle" if c1 else "PR_pend", evs[i], pw=3, pv=c1)
+                if e.line == C["LINE_resume_activate_loop"]:
+                    # dispatch_activate
+                    emit(7, "PA_rmw", e, a1=call_q(i))
+                    if (old ^ new) & NA:
+                        emit(0, "PA_role", e, pw=2, pv=old, st=new)
+                        i = role_and_resume(i + 1, e)
+                    else:
+                        emit(0, "Idle", e, pw=2, pv=old, st=new)
                         i += 1
-                        if not c1:
-                            if i >= n or not (evs[i].kind == 1 and evs[i].off == 0):
-                                fail(evs[i] if i < n else e, "resume: ds_pending_data load of the wakeup expected")
-                            pv = evs[i].a
-                            emit(0, "Idle" if pv == 0 else "PR_wake", evs[i], pw=1, pv=pv)
-                            i += 1
-                            if pv != 0:
-                                # loop: loads / failed attempts, then a commit or nothing (gave up)
-                                obs, com = None, None
-                                while i < n and evs[i].off == 2 and evs[i].kind < 100 and evs[i].line == C["LINE_wakeup_loop"]:
-                                    ww = word_after(evs[i])
-                                    if ww is not None:
-                                        com = evs[i]
-                                        i += 1
-                                        break
-                                    obs = evs[i]
-                                    i += 1
-                                if com is not None:
-                                    wake_steps(com, word_after(com), "PR_wake")
-                                else:
-                                    if obs is None:
-                                        fail(e, "resume: wakeup loop without any dq_state observation")
-                                    emit(0, "Idle", obs, pw=2, pv=obs.a)
                     continue
-                fail(e, "suspend-count write that is neither one suspend nor one resume")
+                if e.line == C["LINE_resume_loop"]:
+                    emit(4, "PR_rmw", e, a1=call_q(i))
+                    i = resume_tail(i, e, old, new)
+                    continue
+                fail(e, "suspend-field write that is not a suspend, a resume or an activation")
             if oo == no and (old & ENQ) and new == old ^ ENQ:
                 # drain_try_lock refused (suspended): the enqueued bit is dropped
                 emit(2, "PW_lock", e, a1=7)
@@ -455,18 +547,20 @@ def chain(events, start, old_of, new_of, thr_of, seq_of, limit=200000):
     return order, cur
 
 
-def build_round(rd, info, thr_ev, C):
+def build_round(rd, info, thr_ev, C, place=False):
     """returns dict(queues, order, st0, final_st, final_pend, nacts) or raises Unsupported"""
-    ready = [e for evs in thr_ev.values() for e in evs if e.kind == 113]
-    if len(ready) != 1:
-        raise Unsupported("no READY mark")
-    ready = ready[0]
-    st0, pend0 = ready.a, ready.b
-    if pend0 != 0:
-        raise Unsupported("ds_pending_data not 0 at READY")
+    # the replay starts where the recording starts: the source as created (inactive, not installed, handler set), at rest
+    first = None
+    for evs in thr_ev.values():
+        for e in evs:
+            if e.off == 2 and e.kind < 100 and (first is None or e.seq < first.seq):
+                first = e
+    if first is None:
+        raise Unsupported("no dq_state operation recorded")
+    st0 = first.a
     per = {}
     for thr, evs in thr_ev.items():
-        tr = [e for e in evs if e.seq > ready.seq and e.kind != 113]
+        tr = [e for e in evs if e.kind != 113]
         if tr:
             per[thr] = tr
     acts_by, allacts = {}, []
@@ -503,7 +597,53 @@ def build_round(rd, info, thr_ev, C):
             if a.pw == 1 and a.pv != 0 and len(stores.get(a.pv, [])) == 1:
                 pairs.append((stores[a.pv][0], a))
                 chains.append([stores[a.pv][0], a])
+    # the installation is a plain write (no recorded event): it is placed after every wakeup that still took the
+    # "not installed" path and before every wakeup that looked at ds_pending_data
+    early = info["target"] in (2, 3)
+    xs = sorted([a for a in allacts if a.tag == ("XA" if early else "XW")], key=lambda a: a.anchor)
+    if xs:
+        X = xs[0]
+        us = [a for a in allacts if a.tag == "U"]
+        vs = [a for a in allacts if a.tag == "I"]
+        if us:
+            X.anchor = max(X.anchor, max(a.anchor for a in us) + 1e-4)
+        for u in us:
+            chains.append([u, X])
+        for v in vs:
+            chains.append([X, v])
     eps = 1e-4
+
+    def place_loads(order, start, word):
+        """an observation of value v of a word whose writes form the exact chain `order`: after the write that produced v (the
+        first such write not before the observer's own latest write of that word) and before the next write"""
+        idx = {id(a): k for k, a in enumerate(order)}
+        produced = {}
+        for k, a in enumerate(order):
+            produced.setdefault(a.st if word == 2 else a.pe, []).append(k)
+        for acts in acts_by.values():
+            k0 = -1
+            for a in acts:
+                if id(a) in idx:
+                    k0 = idx[id(a)]
+                    continue
+                if a.pw != word or (a.st != -1 if word == 2 else a.pe != -1):
+                    continue
+                cands = [k for k in produced.get(a.pv, []) if k >= k0]
+                if a.pv == start and k0 == -1:
+                    cands = [-1] + cands
+                if not cands:
+                    continue
+                # the candidate closest in stamp
+                best = min(cands, key=lambda k: abs((order[k].anchor if k >= 0 else 0.0) - a.anchor))
+                if k0 >= 0 and k0 in cands and order[k0].tid == a.tid and best < k0:
+                    best = k0
+                if best >= 0:
+                    chains.append([order[best], a])
+                if best + 1 < len(order):
+                    chains.append([a, order[best + 1]])
+    # (dq_state values recur all the time: its observations are left to the scheduler)
+    if info["kind"] != 2 and (PLACE_LOADS or place):
+        place_loads(order_pe, 0, 1)
 
     def relax():
         for _ in range(600):
@@ -534,7 +674,7 @@ def build_round(rd, info, thr_ev, C):
     return dict(queues=queues, order=[a.tid for a in allacts], st0=st0, final_st=fin_st, final_pend=fin_pe, nacts=len(allacts))
 
 
-def coq_replay(name, jobs, window=16, timeout=900, workers=4, chunk_actions=6000):
+def coq_replay(name, jobs, window=16, timeout=900, workers=4, chunk_actions=6000, depths=None):
     """jobs: list of (kind, troot, starve, st0, queues, order); returns the int lists of SrcLaneR.replay"""
     from concurrent.futures import ThreadPoolExecutor
     chunks, i = [], 0
@@ -561,8 +701,9 @@ def coq_replay(name, jobs, window=16, timeout=900, workers=4, chunk_actions=6000
             defs.append("Definition qs%d : list (Z * list sact) := [%s]." % (k, ";\n".join(qs)))
             defs.append("Definition ord%d : list Z := [%s]." % (k, "; ".join(z(t) for t in order)))
             kn = ["SrcData.KindAdd", "SrcData.KindOr", "SrcData.KindReplace"][kind]
-            calls.append("replay (mkCfg %s %s %s) %s %d qs%d ord%d" % (kn, "true" if troot else "false", "true" if starve else "false",
-                                                                      z(st0), window, k, k))
+            tb = "true" if troot else "false"
+            calls.append("replay (mkCfg %s %s %s %s %s) %s false %d [%s] %s qs%d ord%d" % (
+                kn, tb, "true" if starve else "false", tb, tb, z(st0), window, "; ".join("%d%%nat" % d for d in (DEPTHS if depths is None else depths)), "false" if os.environ.get("C15_NOFB") else "true", k, k))
         body = ["Definition A (t : Z) (m : mact) : sact := {| s_tid := t; s_act := m |}."] + defs
         body.append("Eval vm_compute in [%s]." % "; ".join(calls))
         ok, vals, raw = driver.coq_eval("%s_%d" % (name, ci), IMPORTS, "\n".join(body) + "\n", timeout=timeout)
@@ -594,12 +735,11 @@ def replay_text(text, label, C):
             e.obj, e.off = rd, fld
             byround.setdefault(rd, {}).setdefault(thr, []).append(e)
     jobs, meta, mism = [], [], []
-    stats = dict(rounds=0, rounds_racing_activation_not_in_scope=0, rounds_replayed=0, actions=0)
+    stats = dict(rounds=0, rounds_with_merges_racing_the_activation=0, rounds_replayed=0, actions=0)
     for rd, info in sorted(rounds.items()):
         stats["rounds"] += 1
         if info["racing"]:
-            stats["rounds_racing_activation_not_in_scope"] += 1
-            continue
+            stats["rounds_with_merges_racing_the_activation"] += 1
         try:
             b = build_round(rd, info, byround.get(rd, {}), C)
         except Unsupported as ex:
@@ -607,7 +747,7 @@ def replay_text(text, label, C):
                          "detail": {"label": label, "round": rd, "kind": info["kind"], "target": info["target"]}})
             continue
         jobs.append((info["kind"], info["target"] in (2, 3), info["target"] != 3, b["st0"], b["queues"], b["order"]))
-        meta.append(dict(label=label, round=rd, info=info, b=b))
+        meta.append(dict(label=label, round=rd, info=info, b=b, thr_ev=byround.get(rd, {})))
         stats["actions"] += b["nacts"]
     return jobs, meta, mism, stats
 
@@ -642,3 +782,37 @@ def judge(meta, results, C):
         else:
             nrep += 1
     return mism, nrep
+
+
+STRATEGIES = [dict(depths=[8, 24, 96, 400], place=False, window=16), dict(depths=[24, 96, 400], place=True, window=16),
+              dict(depths=[], place=False, window=16), dict(depths=[4, 16, 64, 400], place=True, window=6)]
+
+
+def replay_all(name, jobs, meta, C):
+    """first pass with the default order heuristics; a round that is not reproduced is tried again with other (equally
+    untrusted) proposals: any successful replay is a run of the model with the recorded values.  returns (results, retried)"""
+    res = coq_replay(name, jobs)
+    retried = 0
+    for si, st in enumerate(STRATEGIES):
+        bad = [k for k, r in enumerate(res) if r[1] != 0]
+        if not bad:
+            break
+        jobs2, idx = [], []
+        for k in bad:
+            m = meta[k]
+            try:
+                b = build_round(m["round"], m["info"], m["thr_ev"], C, place=st["place"])
+            except Unsupported:
+                continue
+            info = m["info"]
+            jobs2.append((info["kind"], info["target"] in (2, 3), info["target"] != 3, b["st0"], b["queues"], b["order"]))
+            idx.append((k, b))
+        if not jobs2:
+            continue
+        retried += len(jobs2)
+        res2 = coq_replay("%s_retry%d" % (name, si), jobs2, window=st["window"], depths=st["depths"])
+        for (k, b), r in zip(idx, res2):
+            if r[1] == 0:
+                res[k] = r
+                meta[k]["b"] = b
+    return res, retried
